@@ -647,6 +647,11 @@ theorem narrow_eq (a t : K) : narrow a t = Spec.narrowing a t := Tetl.C07.narrow
 theorem selectK_eq (a : K) (alts : List K) (i : Nat) : selectK a alts = some i ↔ Spec.selects a alts i := by
   rw [selectK_eq_spec]; exact specSelectK_iff a alts i
 
+/-- the spec column of the selector probes (`Spec.selectK`, the computed form the driver prints and R2 compares with
+    std::variant) is that same declarative selection -/
+theorem specSelectK_eq (a : K) (alts : List K) (i : Nat) : Spec.selectK a alts = some i ↔ Spec.selects a alts i :=
+  specSelectK_iff a alts i
+
 /-- ... and the converting forms drop out of overload resolution (no alternative selected) exactly when no
     alternative is prescribed: none viable, or the best ones tied (e.g. a repeated alternative type) -/
 theorem selectK_none (a : K) (alts : List K) : selectK a alts = none ↔ ∀ i, ¬ Spec.selects a alts i := by
